@@ -84,3 +84,91 @@ fn offset_and_increment<const KF: usize>() {
     kani::cover!(before == 0xFF && m == 2, "carry reached");
     kani::cover!(true, "end reached");
 }
+
+/// code-space gating with ARBITRARY bounds: a code whose every byte lies inside the corresponding
+/// byte interval of the declared range is inside the code space (both the per-byte reading of
+/// Adobe TN 5014 and the numeric reading agree), a code numerically outside [start, end] or of
+/// another length is outside it.  Codes numerically inside but outside the per-byte rectangle are
+/// contested between the two readings and carry no obligation.
+fn codespace<const L: usize>() {
+    let s: [u8; L] = kani::any();
+    let e: [u8; L] = kani::any();
+    let code: [u8; L] = kani::any();
+    let mut i = 0;
+    let mut rect_in = true;
+    while i < L { kani::assume(s[i] <= e[i]); if code[i] < s[i] || code[i] > e[i] { rect_in = false; } i += 1; }
+    let mut cm = CMap::new();
+    cm.cmap_type = CMapType::ToUnicode;
+    cm.codespace_ranges.push(CodeRange { start: vec_of(&s), end: vec_of(&e) });
+    let c = be_val(&code);
+    let num_in = c >= be_val(&s) && c <= be_val(&e);
+    let valid = cm.is_valid_code(&code);
+    if rect_in { assert!(valid, "a code inside the declared code-space range is rejected"); }
+    if !num_in { assert!(!valid, "a code outside the declared code-space range is accepted"); }
+    let longer = [code[0], code[0], code[0], code[0], code[0]];
+    assert!(!cm.is_valid_code(&longer[..L + 1]), "a code longer than the code space is accepted");
+    if L > 1 { assert!(!cm.is_valid_code(&code[..L - 1]), "a code shorter than the code space is accepted"); }
+    // no explicit mapping and not an Identity CMap: nothing is mapped, inside or outside the code space
+    assert!(cm.map(&code).is_none(), "a code without any mapping is mapped");
+    std::mem::forget(cm);
+    kani::cover!(rect_in && c == be_val(&e), "upper bound of the code space reached");
+    kani::cover!(!num_in && c > be_val(&e), "code above the code space reached");
+    kani::cover!(!num_in && c < be_val(&s), "code below the code space reached");
+    kani::cover!(true, "end reached");
+}
+// @ob id=codespace_l1 unwind=8 tier=quick timeout=900 mem=16 bound="one code-space range of 1-byte codes with arbitrary bounds, every code; codes of length 2 rejected"
+fn codespace_l1<const KF: usize>() { codespace::<1>() }
+// @ob id=codespace_l2 unwind=8 tier=quick timeout=1200 mem=16 bound="one code-space range of 2-byte codes with arbitrary per-byte bounds, every code; codes of length 1 and 3 rejected"
+fn codespace_l2<const KF: usize>() { codespace::<2>() }
+// @ob id=codespace_l3 unwind=8 tier=thorough timeout=1800 mem=20 bound="one code-space range of 3-byte codes with arbitrary per-byte bounds"
+fn codespace_l3<const KF: usize>() { codespace::<3>() }
+
+/// bfchar entries (the parser stores them in the single_mappings cache) take precedence over a
+/// range and are matched by their own key; any other code falls through to the range arithmetic.
+fn bfchar<const L: usize>() {
+    let k1: [u8; L] = kani::any();
+    let k2: [u8; L] = kani::any();
+    let d1: [u8; 2] = kani::any();
+    let d2: [u8; 2] = kani::any();
+    let s: [u8; L] = kani::any();
+    let e: [u8; L] = kani::any();
+    let d: [u8; 2] = kani::any();
+    let code: [u8; L] = kani::any();
+    kani::assume(be_val(&k1) != be_val(&k2));
+    kani::assume(be_val(&s) <= be_val(&e));
+    let mut cm = CMap::new();
+    cm.cmap_type = CMapType::ToUnicode;
+    cm.single_mappings.insert(vec_of(&k1), vec_of(&d1));
+    cm.single_mappings.insert(vec_of(&k2), vec_of(&d2));
+    cm.mappings.push(CMapEntry::Range { src_start: vec_of(&s), src_end: vec_of(&e), dst_start: vec_of(&d) });
+    let lo = [0u8; L];
+    let hi = [0xFFu8; L];
+    cm.codespace_ranges.push(CodeRange { start: vec_of(&lo), end: vec_of(&hi) });
+    let got = cm.map(&code);
+    let c = be_val(&code);
+    let want: Option<u64> = if c == be_val(&k1) { Some(be_val(&d1)) }
+        else if c == be_val(&k2) { Some(be_val(&d2)) }
+        else if c >= be_val(&s) && c <= be_val(&e) { Some((be_val(&d) + (c - be_val(&s))) & 0xFFFF) }
+        else { None };
+    match (&got, want) {
+        (Some(v), Some(w)) => assert!(v.len() == 2 && be_val(v) == w, "bfchar/bfrange: a code is mapped to a value the CMap does not define for it"),
+        (None, None) => {}
+        (Some(_), None) => assert!(false, "a code with no bfchar and outside the bfrange is mapped"),
+        (None, Some(_)) => assert!(false, "a code the CMap defines is not mapped"),
+    }
+    // a bfchar key of another length never matches (keys are compared whole)
+    let longer = [code[0], code[0], code[0], code[0]];
+    if c == be_val(&k1) {
+        let mut l2 = longer; let mut j = 0; while j < L { l2[j] = code[j]; j += 1; }
+        assert!(cm.map(&l2[..L + 1]).is_none(), "a longer code with a bfchar key as prefix is mapped");
+    }
+    std::mem::forget(cm);
+    kani::cover!(c == be_val(&k2) && c >= be_val(&s) && c <= be_val(&e), "second bfchar inside the bfrange reached (precedence)");
+    kani::cover!(got.is_none(), "unmapped code reached");
+    kani::cover!(c != be_val(&k1) && c != be_val(&k2) && got.is_some(), "fall-through to the bfrange reached");
+    kani::cover!(true, "end reached");
+}
+// @ob id=bfchar_l1 unwind=8 tier=quick timeout=1200 mem=16 bound="two bfchar entries + one bfrange, 1-byte codes, 2-byte destinations: every key pair, range, destination and looked-up code"
+fn bfchar_l1<const KF: usize>() { bfchar::<1>() }
+// @ob id=bfchar_l2 unwind=8 tier=quick timeout=1500 mem=20 bound="two bfchar entries + one bfrange, 2-byte codes, 2-byte destinations: every key pair, range, destination and looked-up code"
+fn bfchar_l2<const KF: usize>() { bfchar::<2>() }
